@@ -478,3 +478,71 @@ Definition buf_write_byte_ref (s_buf : gslice) (s_off s_lastRead : Z) (f_isnil :
     | BRange st_ => let '(s_buf, s_off, s_lastRead) := st_ in BRange (s_buf, s_off, s_lastRead)
     | BPanic p_ st_ => let '(s_buf, s_off, s_lastRead) := st_ in BPanic p_ (s_buf, s_off, s_lastRead)
     end.
+
+(* ---- ReadFrom: the reader is a script of answers (Model/Buffer.v).  r.Read(p) with p = s.buf[i:cap(s.buf)]:
+   the window starts at cap(s.buf) - len(p) of the array of s.buf; the answer's bytes (at most len(p)) are
+   stored there, i.e. in the array of s.buf, whose length is unchanged ---- *)
+Definition err_eqb (a b : err) : bool :=
+  match a, b with
+  | ENil, ENil | EEOF, EEOF | EUnreadByte, EUnreadByte | EUnreadRune, EUnreadRune | EShortWrite, EShortWrite | EUser, EUser => true
+  | _, _ => false
+  end.
+Definition rerr_err (e : rerr) : err := match e with RNil => ENil | REOF => EEOF | RErr => EUser end.
+Definition rd_read (s_buf : gslice) (script : list rresp) (p : gslice) : bres (Z * err) (gslice * list rresp) :=
+  match script with
+  | [] => BOk (0, EEOF) (s_buf, [])
+  | RNeg :: t => BOk (-1, ENil) (s_buf, t)
+  | RData bs e :: t =>
+      let got := firstn (List.length (fst p)) bs in
+      let start := Z.to_nat (sl_cap s_buf - sl_len p) in
+      let all := sl_all s_buf in
+      let all' := firstn start all ++ got ++ skipn (start + List.length got) all in
+      BOk (Z.of_nat (List.length got), rerr_err e)
+          ((firstn (List.length (fst s_buf)) all', skipn (List.length (fst s_buf)) all'), t)
+  end.
+Definition bview_rf (nil : bool) (r : bres (Z * err) (bstate * list rresp)) : pc * result :=
+  match r with
+  | BOk v (st, _) => (abs_pc nil st, Res [fst v] [] (snd v))
+  | BRange (st, _) => (abs_pc nil st, Panicked PRange)
+  | BPanic m (st, _) => (abs_pc nil st, Panicked (panic_of m))
+  end.
+
+(* PrintCtx.ReadFrom  (BOk results state | BRange state | BPanic v state) *)
+Definition buf_read_from_ref (s_buf : gslice) (s_off s_lastRead : Z) (f_isnil : gslice -> bool) (f_growSlice : gslice -> Z -> bres gslice unit) (r : unit) (script_ : list rresp) : bres (Z * err) (bstate * list rresp) :=
+  let n := 0 in
+  let err := ENil in
+  let s_lastRead := 0 in
+  match go_loop_b (S (List.length script_)) (fun st_ => let '(s_buf, n, err, s_off, s_lastRead, script_) := st_ in
+        match buf_grow_int_ref s_buf s_off s_lastRead f_isnil f_growSlice 512 with
+        | BOk r_ st_ => let '(s_buf, s_off, s_lastRead) := st_ in let i := r_ in
+          match sl_to s_buf i with
+          | None => LbEnd (BRange (s_buf, s_off, s_lastRead, script_))
+          | Some r1_ => let s_buf := r1_ in
+            match sl_range s_buf i (sl_cap s_buf) with
+            | None => LbEnd (BRange (s_buf, s_off, s_lastRead, script_))
+            | Some r2_ => match rd_read s_buf script_ r2_ with
+              | BOk r_ st_ => let '(s_buf, script_) := st_ in let '(m, e) := r_ in
+                if (m <? 0)
+                then LbEnd (BPanic p_negread (s_buf, s_off, s_lastRead, script_))
+                else match sl_to s_buf (i + m) with
+                | None => LbEnd (BRange (s_buf, s_off, s_lastRead, script_))
+                | Some r3_ => let s_buf := r3_ in
+                  let n := (n + m) in
+                  if (err_eqb e EEOF)
+                  then LbEnd (BOk ((n, ENil)) (s_buf, s_off, s_lastRead, script_))
+                  else if (negb (err_is_enil e))
+                  then LbEnd (BOk ((n, e)) (s_buf, s_off, s_lastRead, script_))
+                  else LbNext (s_buf, n, err, s_off, s_lastRead, script_)
+                end
+              | BRange st_ => let '(s_buf, script_) := st_ in LbEnd (BRange (s_buf, s_off, s_lastRead, script_))
+              | BPanic p_ st_ => let '(s_buf, script_) := st_ in LbEnd (BPanic p_ (s_buf, s_off, s_lastRead, script_))
+              end
+            end
+          end
+        | BRange st_ => let '(s_buf, s_off, s_lastRead) := st_ in LbEnd (BRange (s_buf, s_off, s_lastRead, script_))
+        | BPanic p_ st_ => let '(s_buf, s_off, s_lastRead) := st_ in LbEnd (BPanic p_ (s_buf, s_off, s_lastRead, script_))
+        end) (s_buf, n, err, s_off, s_lastRead, script_) with
+    | None => BRange (s_buf, s_off, s_lastRead, script_)
+    | Some (LrEnd r_) => r_
+    | Some (LrBreak (s_buf, n, err, s_off, s_lastRead, script_)) => BOk (n, err) (s_buf, s_off, s_lastRead, script_)
+    end.
